@@ -217,15 +217,19 @@ def o_close_calls(case):
     ec = case['est']
     est, fp, shape = make_est(ec)
     shp = shape(case['nr'])
-    kept = []
-    for i, call in enumerate(case['calls']):
-        cls = 'R15:close-observation:%s:%s%s' % (ec['kind'], call['mode'],
-                                                 ':scale' if float(call.get('scale', 1.0)) != 1.0 else '')
+    hist = []
+    for i, call in enumerate(case['calls']):           # the history as the caller runs it
         y = call_contents(case, shp, call)
         snap = np.array(y, copy=True)
         out = np.asarray(call_est(est, ec, y, call['K']))
         if not same(y, snap):
-            return 'input-modified:' + cls, 'call %d changed its observation' % i
+            return 'input-modified:R15:close-observation:' + ec['kind'], 'call %d changed its observation' % i
+        hist.append((call, snap, out, np.array(out, copy=True)))
+    for i, (call, snap, out, cp) in enumerate(hist):
+        cls = 'R15:close-observation:%s:%s%s' % (ec['kind'], call['mode'],
+                                                 ':scale' if float(call.get('scale', 1.0)) != 1.0 else '')
+        if not same(out, cp):
+            return 'R15:earlier-result-changed:' + ec['kind'], 'result of call %d changed later' % i
         fresh = np.asarray(call_est(make_est(ec)[0], ec, np.array(snap, copy=True), call['K']))
         if not same(out, fresh):
             return cls + ':differs-from-fresh', 'call %d (K=%d): %s to a fresh estimator on a copy of the same values' % (
@@ -234,10 +238,6 @@ def o_close_calls(case):
         ok, d, mag = rel(out, want, 1e-11)
         if not ok:
             return cls + ':differs-from-dft-sums', 'call %d (K=%d): max diff %.3e (magnitude %.3e)' % (i, call['K'], d, mag)
-        kept.append((out, np.array(out, copy=True)))
-    for i, (o, cp) in enumerate(kept):
-        if not same(o, cp):
-            return 'R15:earlier-result-changed:' + ec['kind'], 'result of call %d changed later' % i
     return None
 
 
@@ -309,7 +309,7 @@ def o_close_taps(case):
     return None
 
 
-LS_MODES = ['near-orthogonal', 'near-parallel', 'close-channels', 'tiny-pilots-pair', 'large-pilots-pair']
+LS_MODES = ['near-orthogonal', 'near-parallel', 'close-channels', 'close-pilots-pair', 'tiny-pilots-pair', 'large-pilots-pair']
 F4 = np.array([[1, 1, 1, 1], [1, -1j, -1, 1j], [1, -1, 1, -1], [1, 1j, -1, -1j]], dtype=complex)
 H8 = np.array([[1 if bin(i & j).count('1') % 2 == 0 else -1 for j in range(8)] for i in range(8)], dtype=complex)
 
@@ -318,24 +318,29 @@ def gi(rr, r, c, lo=-3, hi=3):
     return (rr.randint(lo, hi + 1, size=(r, c)) + 1j * rr.randint(lo, hi + 1, size=(r, c))).astype(complex)
 
 
-def ls_pilots(rr, mode, nt, npil):
-    """one pilot matrix of the mode and the condition number of its Gram matrix (the margin of the near-tie)"""
+def ls_pilots(rr, mode, nt, npil, flavour=None):
+    """one pilot matrix of the mode and the condition number of its Gram matrix (the margin of the near-tie).
+    near-orthogonal: orthogonal rows of equal power plus a perturbation of 2^-20 (inside rtol = 1e-5 on the
+    diagonal of the Gram matrix) or 2^-32 (off-diagonal entries of the Gram matrix below atol = 1e-8);
+    near-parallel: second row = first row + 2^-18 e (np.allclose identifies the rows, cond ~ 1e12) or + 2^-14 e
+    (cond ~ 1e9..1e10: still beyond 1 / 1e-8)"""
     while True:
         if mode == 'near-orthogonal':
             base = F4 if npil == 4 else H8
             rows = list(range(base.shape[0]))
             rr.shuffle(rows)
-            s = base[rows[:nt]] * np.array([1, 1j, -1, -1j])[rr.randint(0, 4, size=(nt, 1))] + P20 * gi(rr, nt, npil, -2, 2)
+            delta = P20 if (rr.randint(0, 2) if flavour is None else flavour) else 2.0 ** -32
+            s = base[rows[:nt]] * np.array([1, 1j, -1, -1j])[rr.randint(0, 4, size=(nt, 1))] + delta * gi(rr, nt, npil, -2, 2)
         elif mode == 'near-parallel':
             s = gi(rr, nt, npil)
             s[0, 0] += 4
-            s[1] = s[0] + P18 * gi(rr, 1, npil)[0]
+            s[1] = s[0] + (P18 if (rr.randint(0, 2) if flavour is None else flavour) else 2.0 ** -14) * gi(rr, 1, npil)[0]
         else:
             s = gi(rr, nt, npil)
         g = s @ s.conj().T
         cond = float(np.linalg.cond(g))
         if mode == 'near-parallel':
-            if nt >= 2 and 1e9 < cond < 1e13:
+            if nt >= 2 and 1e8 < cond < 2e12:
                 return s, cond
         elif mode == 'near-orthogonal':
             if cond < 1.001 and not np.array_equal(g, g[0, 0] * np.eye(nt)):
@@ -352,7 +357,7 @@ def ls_case_arrays(case):
     conds = []
 
     def one_s():
-        s, c = ls_pilots(rr, mode, nt, npil)
+        s, c = ls_pilots(rr, mode, nt, npil, case.get('flavour'))
         conds.append(c)
         return s
 
@@ -371,6 +376,10 @@ def ls_case_arrays(case):
         hs2 = [h + P20 * gi(rr, nr, nt, -1, 1) for h in hs]
         hs2[0][0, 0] += P20
         return [build(hs, ss), build(hs2, ss), build(hs, ss)], max(conds)
+    if mode == 'close-pilots-pair':
+        ss2 = [s + P20 * gi(rr, nt, npil, -1, 1) for s in ss]
+        ss2[0][0, 0] += P20
+        return [build(hs, ss), build(hs, ss2), build(hs, ss)], max(conds)
     if mode == 'tiny-pilots-pair':
         return [build(hs, ss, f) for f in (4e-12, 4e-13, 1e-15)], max(conds)
     if mode == 'large-pilots-pair':
@@ -380,12 +389,14 @@ def ls_case_arrays(case):
 
 def o_close_ls(case):
     """R15: pilot matrices of full row rank whose Gram matrix is NEARLY a multiple of the identity, whose rows
-    are NEARLY parallel (tolerance = 1024 eps cond(S S^H), the margin of the near-tie), channel matrices that
-    differ by 1e-6, pilots of tiny / large magnitude that differ by a factor: Y = H S gives back H"""
+    are NEARLY parallel (tolerance = 64 eps cond(S S^H), the margin of the near-tie; the library stays below 2 eps cond), channel matrices that
+    differ by 1e-6, pilot matrices that differ by 1e-6, pilots of tiny / large magnitude that differ by a factor,
+    one after the other: Y = H S gives back H"""
     est = B()._impl()[5]
     arrs, cond = ls_case_arrays(case)
-    cls = 'R15:ls:%s:%s' % (case['mode'], case['shape'])
-    tol = max(1e-10, 1024 * EPS * cond)
+    cls = 'R15:ls:%s%s:%s' % (case['mode'], {'near-orthogonal': [':2^-32', ':2^-20'], 'near-parallel': [':2^-14', ':2^-18']}.get(
+        case['mode'], ['', ''])[int(case.get('flavour') or 0)], case['shape'])
+    tol = max(1e-12, 64 * EPS * cond)
     outs = []
     for i, (y, s, h) in enumerate(arrs):
         snap = B().Snap(Y=y, S=s)
@@ -423,8 +434,17 @@ def o_close_reference(case):
     return None
 
 
-COVERS = [[1.0, -(1.0 + P20)], [1.0 + P20, 1.0 - P20], [1.0, 1.0 + EPS], [1e-9, -1e-9], [1.0, -1.0, 1.0 + P20],
-          [4e-12, 4e-13]]
+COVER_MODES = {'second-off-1e-6': [1.0, -(1.0 + P20)], 'both-off-1e-6': [1.0 + P20, 1.0 - P20],
+               'second-off-1ulp': [1.0, 1.0 + EPS], 'tiny': [1e-9, -1e-9], 'third-off-1e-6': [1.0, -1.0, 1.0 + P20],
+               'tiny-pair': [4e-12, 4e-13]}
+COVERS = list(COVER_MODES.values())
+
+
+def cover_mode(cc):
+    for k_, v_ in COVER_MODES.items():
+        if list(cc) == v_:
+            return k_
+    return 'other'
 
 
 def o_close_cover(case):
@@ -437,7 +457,7 @@ def o_close_cover(case):
     root = b.impl_root(spec['u'], spec['size'], spec['nzc'])
     dm = b._impl()[3]
     ue = dm.DmrsUeSequence(root, spec['ncs'], cover_code=np.array(cc, copy=True), normalize=bool(spec['norm']))
-    cls = 'R15:close-cover:%s' % '_'.join('%.17g' % v for v in cc)
+    cls = 'R15:close-cover:' + cover_mode(case['cover'])
     x = fp_shift(np.asarray(root.seq_array()), spec['ncs'], 12)
     want = x[None, :] * cc[:, None]
     if spec['norm']:
@@ -494,12 +514,14 @@ def gen_close_taps(rng, kind=None, mode=None):
             'K': rng.choice([ntaps - 1, ntaps, n // 2]), 'mode': mode or rng.choice(TAP_MODES)}
 
 
-def gen_close_ls(rng, mode=None, shape=None):
+def gen_close_ls(rng, mode=None, shape=None, flavour=None):
     mode = mode or rng.choice(LS_MODES)
+    flavour = rng.below(2) if flavour is None else flavour
     npil = rng.choice([4, 8]) if mode == 'near-orthogonal' else rng.randint(3, 7)
     nt = rng.randint(2, 3) if mode in ('near-parallel', 'near-orthogonal') else rng.randint(1, 3)
     return {'mode': mode, 'shape': shape or rng.choice(['2d', '3d-shared', '3d-own']), 'nt': min(nt, npil),
-            'npil': npil, 'nr': rng.randint(1, 3), 'reps': rng.randint(2, 3), 'seed': rng.below(2 ** 31)}
+            'npil': npil, 'nr': rng.randint(1, 3), 'reps': rng.randint(2, 3), 'seed': rng.below(2 ** 31),
+            'flavour': flavour}
 
 
 def gen_close_ref(rng, mode=None):
@@ -531,7 +553,8 @@ def run_buffer_history(cls, make, contents, steps, fp=None, fp_rel=1e-11, exact_
     share no memory with the arguments or earlier results, and stay what it was."""
     f = make()
     bufs = [np.empty_like(a) for a in contents[0]]
-    kept, alive = [], []
+    hist = []
+    # phase 1: the history exactly as the caller runs it — nothing of the library is called in between
     for j, st in enumerate(steps):
         cont = contents[st['i']]
         args = []
@@ -543,39 +566,43 @@ def run_buffer_history(cls, make, contents, steps, fp=None, fp_rel=1e-11, exact_
                 args.append(bufs[p])
         snaps = [np.array(a, copy=True) for a in args]
         out = f(args, st)
+        outs = list(out) if isinstance(out, (list, tuple)) else [out]
         for p, (a, s_) in enumerate(zip(args, snaps)):
             if not same(a, s_):
                 return cls + ':argument-modified', 'call %d changed its array argument %d' % (j, p)
-        outs = out if isinstance(out, (list, tuple)) else [out]
         for o in outs:
             if isinstance(o, np.ndarray) and any(np.shares_memory(o, a) for a in args):
                 return cls + ':result-aliases-argument', 'call %d: the result shares memory with an argument' % j
         for a in args:
             scribble(a)
+        for o_prev, _, jj in [(o_, c_, j_) for h_ in hist for (o_, c_, j_) in h_['kept']]:
+            if any(isinstance(o, np.ndarray) and np.shares_memory(o, o_prev) for o in outs):
+                return cls + ':result-aliases-earlier-result', 'results of calls %d and %d share memory' % (jj, j)
+        hist.append({'st': st, 'snaps': snaps, 'outs': outs,
+                     'kept': [(o, np.array(o, copy=True), j) for o in outs if isinstance(o, np.ndarray)]})
+    # phase 2: every result against a fresh callee on private copies and against first principles
+    alive = []
+    for j, h_ in enumerate(hist):
+        st, snaps, outs = h_['st'], h_['snaps'], h_['outs']
+        for o_prev, cp_prev, jj in h_['kept']:
+            if not same(o_prev, cp_prev):
+                return cls + ':earlier-result-changed', 'the result of call %d changed during a later call' % jj
         private = [np.array(s_, copy=True) for s_ in snaps]
         alive.append(private)
         fresh = make()(private, st)
-        fresh = fresh if isinstance(fresh, (list, tuple)) else [fresh]
+        fresh = list(fresh) if isinstance(fresh, (list, tuple)) else [fresh]
         for o, w in zip(outs, fresh):
             if exact_fresh and not same(o, w):
                 return cls + ':differs-from-fresh', 'call %d (contents %d): %s to a fresh object on private copies of ' \
                     'the contents' % (j, st['i'], R2().diff_txt(o, w))
         if fp is not None:
             want = fp(snaps, st)
-            want = want if isinstance(want, (list, tuple)) else [want]
+            want = list(want) if isinstance(want, (list, tuple)) else [want]
             for o, w in zip(outs, want):
                 ok, d, mag = rel(np.asarray(o), np.asarray(w), fp_rel)
                 if not ok:
                     return cls + ':differs-from-first-principles', 'call %d (contents %d): max diff %.3e (magnitude %.3e)' % (
                         j, st['i'], d, mag)
-        for o_prev, cp_prev, jj in kept:
-            if not same(o_prev, cp_prev):
-                return cls + ':earlier-result-changed', 'the result of call %d changed during call %d' % (jj, j)
-            if any(isinstance(o, np.ndarray) and np.shares_memory(o, o_prev) for o in outs):
-                return cls + ':result-aliases-earlier-result', 'results of calls %d and %d share memory' % (jj, j)
-        for o in outs:
-            if isinstance(o, np.ndarray):
-                kept.append((o, np.array(o, copy=True), j))
     return None
 
 
@@ -669,6 +696,8 @@ def o_buffer_reuse(case):
             def f(args, st):
                 o = root if st['on'] == 'root' else ue
                 a = args[0]
+                if st['op'] == 'getitem':
+                    return o[np.abs(a.real * 1000).astype(np.intp) % o.size]
                 return {'add': lambda: o + a, 'radd': lambda: a + o, 'mul': lambda: o * a, 'rmul': lambda: a * o}[st['op']]()
             return f
 
@@ -676,6 +705,8 @@ def o_buffer_reuse(case):
             root = b.impl_root(rs['u'], rs['size'], None)
             seq = np.asarray(root.seq_array() if st['on'] == 'root' else
                              b.make_ue(root, {'D': 8, 'ncs': 3, 'norm': 1, 'cover': None}).seq_array())
+            if st['op'] == 'getitem':
+                return np.array([seq[int(abs(v.real * 1000)) % seq.size] for v in snaps[0]])
             return seq + snaps[0] if st['op'] in ('add', 'radd') else seq * snaps[0]
         return run_buffer_history(cls, make, contents, steps, fp=fp, fp_rel=1e-15)
     raise ValueError(kind)
@@ -834,7 +865,7 @@ def gen_buffer_case(rng, kind=None):
         size = rng.choice([12, 24, 36, 48])
         lim = B().largest_prime_le(size) if size > 24 else 30
         case['root'] = {'u': rng.randint(1, lim - 1), 'size': size}
-        on, op = rng.choice(['root', 'ue']), rng.choice(['add', 'radd', 'mul', 'rmul'])
+        on, op = rng.choice(['root', 'ue']), rng.choice(['add', 'radd', 'mul', 'rmul', 'getitem'])
         case['steps'] = gen_steps(rng, nc, lambda j: {'on': on, 'op': op})
     return case
 
@@ -894,7 +925,8 @@ def oracle_runs(ctx, quick):
         ctx.branch('oracle:R15:taps:' + mode)
     for mode in LS_MODES:
         for shape in ('2d', '3d-shared', '3d-own'):
-            run(ctx, 'close pilots', gen_close_ls(rng, mode, shape))
+            for flavour in ((0, 1) if mode.startswith('near-') else (0,)):
+                run(ctx, 'close pilots', gen_close_ls(rng, mode, shape, flavour))
         ctx.branch('oracle:R15:ls:' + mode)
     for mode in REF_MODES:
         run(ctx, 'close reference array', gen_close_ref(rng, mode))
@@ -981,8 +1013,8 @@ def corr_close(ctx, drv, n):
     # least squares, exact model
     from fractions import Fraction
     lines, todo = [], []
-    for i in range(max(6, n // 2)):
-        case = gen_close_ls(rng, LS_MODES[i % 3], '2d')
+    for i in range(max(8, n // 2)):
+        case = gen_close_ls(rng, LS_MODES[i % 4], '2d', (i // 4) % 2)
         arrs, cond = ls_case_arrays(case)
         for y, s, h in arrs:
             lines.append('ls nr=%d nt=%d np=%d Y=%s S=%s' % (
@@ -1005,7 +1037,7 @@ def corr_close(ctx, drv, n):
             continue
         mv = np.array([[complex(Fraction(t.split(':')[0]), Fraction(t.split(':')[1])) for t in r.split(',')]
                        for r in mo[len('inv-ok '):].split('|')])
-        ok, d, mag = rel(res, mv, max(1e-10, 1024 * EPS * cond))
+        ok, d, mag = rel(res, mv, max(1e-12, 64 * EPS * cond))
         ctx.corr(name, case, 'close' if ok else 'maxdiff=%.3e magnitude=%.3e cond=%.3e' % (d, mag, cond), 'close')
 
 
@@ -1116,7 +1148,7 @@ def correspondence(ctx, drv, quick):
 
 REQUIRED = ['corr:R15', 'corr:R16', 'oracle:R15', 'oracle:R16'] \
     + ['oracle:R15:' + k for k in R15_ORACLE_KINDS] + ['oracle:R16:' + k for k in R16_ORACLE_KINDS] \
-    + ['corr:R15:est:' + k for k in EST_KINDS] + ['corr:R15:ls:' + m_ for m_ in LS_MODES[:3]] \
+    + ['corr:R15:est:' + k for k in EST_KINDS] + ['corr:R15:ls:' + m_ for m_ in LS_MODES[:4]] \
     + ['corr:R16:' + k for k in ('est-plain', 'est-comb', 'est-occ', 'est-occ-flat', 'est-raw', 'ls-2d', 'ext', 'shift')]
 
 
